@@ -1,11 +1,43 @@
 """RFC 8017 (PKCS #1 v2.2), written from the standard.  Hash and (where a caller supplies one) MGF are uninterpreted.
 
   Hash(alg, data)   the hash function selected by the ghost algorithm id `alg`; hLen = hlen(alg) octets
+  xor(a, b)         byte-wise exclusive or of two strings of equal length (uninterpreted; only its length is known)
+  octets(n)         k, the length in octets of the modulus n (RFC 8017 section 2: 2^(8(k-1)) <= n < 2^(8k))
+  OidStr            model of a hash object's `oid` attribute (dotted-decimal str): only ==, !=, in, startswith exist
+  oid_der(id)       DER encoding (tag 0x06, length, content) of the OBJECT IDENTIFIER with ghost id `id`
+
+Sections below are owned by different proofs; keep additions inside the section they belong to.
 """
+from spec import mathint
 
 SIG = {
     'Hash': {'sort': 'bytes', 'uf': True, 'facts': ['len(result) == hlen(alg)']},
     'hlen': {'sort': 'int', 'uf': True, 'facts': ['result >= 1']},
+    'xor': {'sort': 'bytes', 'uf': True, 'facts': ['len(result) == len(a)']},
+    'oid_is': {'sort': 'bool', 'uf': True},
+    'oid_startswith': {'sort': 'bool', 'uf': True},
+    'oid_der': {'sort': 'bytes', 'uf': True, 'facts': ['len(result) >= 3']},
+    'octets': 'int',
+    # ---- section EMSA-PKCS1-v1_5 / RSAES-PKCS1-v1_5 (sig_rsa.py, pkcs1_enc.py)
+    'null_required': 'bool', 'digest_info': 'bytes', 'emsa_pkcs1_v15_fits': 'bool', 'emsa_pkcs1_v15': 'bytes',
+    'rsassa_pkcs1_v15_em': 'bytes', 'rsassa_pkcs1_v15_valid': 'bool',
+    # PS of RSAES-PKCS1-v1_5 as drawn from the caller's byte source: the non-zero octets among the one-octet draws
+    # number c0, c0+1, ..., c1-1 of the tape, in order (definition by recursion on c1; conservative)
+    'nonzero_draws': {'sort': 'bytes', 'uf': True,
+                      'facts': ['c1 <= c0 ==> result == b""',
+                                'c1 > c0 ==> result == nonzero_draws(c0, c1 - 1) + ite(rnd_tape(c1 - 1) == bytes(1), b"", rnd_tape(c1 - 1))']},
+    'eme_pkcs1_v15': 'bytes', 'eme_pkcs1_v15_sep': 'int', 'eme_pkcs1_v15_ok': 'bool', 'eme_pkcs1_v15_msg': 'bytes',
+    'pkcs1_decode_bad_args': 'bool',
+    # ---- section MGF1 / EMSA-PSS / RSAES-OAEP (sig_pss.py, enc_oaep.py)
+    'MGF': {'sort': 'bytes', 'uf': True, 'facts': ['length >= 0 ==> len(result) == length']},
+    'mgf1_T': {'sort': 'bytes', 'uf': True,
+               'facts': ['blocks <= 0 ==> result == b""',
+                         'blocks >= 1 ==> result == mgf1_T(alg, seed, blocks - 1) + Hash(alg, seed + i2osp(blocks - 1, 4))']},
+    'mgf1': {'sort': 'bytes', 'facts': ['(0 <= maskLen and maskLen <= 4294967296 * hlen(alg)) ==> len(result) == maskLen']},
+    'first_nonzero': {'sort': 'int', 'uf': True,
+                      'facts': ['0 <= result and result <= len(s)', 's[:result] == rep(bytes(1), result)',
+                                'result < len(s) ==> nth(s, result) != 0']},
+    'emsa_pss_ok': 'bool', 'emsa_pss_em': 'bytes', 'oaep_ok': 'bool', 'oaep_em': 'bytes', 'oaep_message': 'bytes', 'oaep_decode_c': 'int',
 }
 
 
@@ -15,3 +47,303 @@ def Hash(alg, data):
 
 def hlen(alg):
     pass
+
+
+def xor(a, b):
+    pass
+
+
+def oid_is(g_id, literal):
+    """the OID string with ghost id g_id equals the given literal"""
+    pass
+
+
+def oid_startswith(g_id, prefix):
+    pass
+
+
+def oid_der(g_id):
+    pass
+
+
+def octets(n):
+    """k = ceil(bit length of n / 8), n >= 1"""
+    return (mathint.size_in_bits(n) - 1) // 8 + 1
+
+
+class OidStr(object):
+
+    def __eq__(self, other):
+        if isinstance(other, OidStr):
+            return self.g_id == other.g_id
+        if isinstance(other, str):
+            return oid_is(self.g_id, other)
+        return False
+
+    def __ne__(self, other):
+        return not self.__eq__(other)
+
+    def startswith(self, prefix):
+        return oid_startswith(self.g_id, prefix)
+
+
+# ================================================================ section EMSA-PKCS1-v1_5 / RSAES-PKCS1-v1_5 (sig_rsa.py, pkcs1_enc.py)
+from spec import der
+
+
+def null_required(oid):
+    """the hash is one of the MD family, arc {iso(1) member-body(2) us(840) rsadsi(113549) digestAlgorithm(2)} (id-md2 = ...2.2,
+    id-md5 = ...2.5; RFC 8017 B.1): their AlgorithmIdentifier always carries NULL parameters.  For the SHA families the
+    parameters may be absent or NULL and 'implementations MUST accept both' (B.1)"""
+    return oid_startswith(oid, '1.2.840.113549.2.')
+
+
+def digest_info(oid, with_null, h):
+    """T of RFC 8017 9.2 step 2: DER of  DigestInfo ::= SEQUENCE { digestAlgorithm AlgorithmIdentifier, digest OCTET STRING }
+    with AlgorithmIdentifier ::= SEQUENCE { algorithm OBJECT IDENTIFIER, parameters NULL OPTIONAL }  (A.2.4);
+    X.690: SEQUENCE = 30 L content, OCTET STRING = 04 L content, NULL = 05 00, L = definite minimal length octets"""
+    if with_null:
+        algo_content = oid_der(oid) + b'\x05\x00'
+    else:
+        algo_content = oid_der(oid)
+    algo = b'\x30' + der.encode_length(len(algo_content)) + algo_content
+    digest = b'\x04' + der.encode_length(len(h)) + h
+    return b'\x30' + der.encode_length(len(algo) + len(digest)) + algo + digest
+
+
+def emsa_pkcs1_v15_fits(t, emLen):
+    """9.2 step 3: emLen < tLen + 11 is the error 'intended encoded message length too short'"""
+    return emLen >= len(t) + 11
+
+
+def emsa_pkcs1_v15(t, emLen):
+    """9.2 steps 4-5: EM = 0x00 || 0x01 || PS || 0x00 || T,  PS = emLen - tLen - 3 octets 0xff (at least 8)"""
+    return b'\x00\x01' + rep(b'\xff', emLen - len(t) - 3) + b'\x00' + t
+
+
+def rsassa_pkcs1_v15_em(k, oid, h):
+    """8.2.1 step 1 with H = Hash(M) given: EM = EMSA-PKCS1-V1_5-ENCODE(M, k); the DigestInfo of a signature always carries
+    NULL parameters (B.1, 'Exception')"""
+    return emsa_pkcs1_v15(digest_info(oid, True, h), k)
+
+
+def rsassa_pkcs1_v15_valid(n, e, S, oid, h):
+    """8.2.2 RSASSA-PKCS1-V1_5-VERIFY((n, e), M, S) outputs 'valid signature' (H = Hash(M) given)"""
+    k = octets(n)
+    if len(S) != k:                                     # step 1
+        return False
+    s = be(S)                                           # step 2a
+    if not (0 <= s and s < n):                          # step 2b RSAVP1: 'signature representative out of range'
+        return False
+    m = pow(s, e, n)
+    if m >= pow2(8 * k):                                # step 2c I2OSP: 'integer too large' (cannot occur: m < n < 256^k)
+        return False
+    em = i2osp(m, k)
+    t1 = digest_info(oid, True, h)
+    if not emsa_pkcs1_v15_fits(t1, k):                  # step 3: 'RSA modulus too short'
+        return False
+    if em == emsa_pkcs1_v15(t1, k):                     # step 4
+        return True
+    if null_required(oid):
+        return False
+    t2 = digest_info(oid, False, h)                     # B.1: the same AlgorithmIdentifier without the parameters field
+    return emsa_pkcs1_v15_fits(t2, k) and em == emsa_pkcs1_v15(t2, k)
+
+
+def nonzero_draws(c0, c1):
+    pass
+
+
+def eme_pkcs1_v15(ps, m):
+    """7.2.1 step 2b: EM = 0x00 || 0x02 || PS || 0x00 || M"""
+    return b'\x00\x02' + ps + b'\x00' + m
+
+
+def eme_pkcs1_v15_sep(em):
+    """index of the 0x00 octet that ends PS when PS has its minimum length of 8 non-zero octets: the first zero octet at an
+    index >= 10; -1 if there is none"""
+    return em.find(b'\x00', 10)
+
+
+def eme_pkcs1_v15_ok(em, expected):
+    """7.2.2 step 3: EM == 0x00 || 0x02 || PS || 0x00 || M with PS non-zero octets, len(PS) >= 8 -- plus the library's
+    convention that a non-zero `expected` is the only acceptable length of M"""
+    if len(em) < 11:
+        return False
+    if em[0] != 0 or em[1] != 2:
+        return False
+    if em[2] == 0 or em[3] == 0 or em[4] == 0 or em[5] == 0 or em[6] == 0 or em[7] == 0 or em[8] == 0 or em[9] == 0:
+        return False                                    # a zero octet here would end a PS of fewer than 8 octets
+    j = eme_pkcs1_v15_sep(em)
+    if j < 0:
+        return False                                    # no octet 0x00 separates PS from M
+    return expected == 0 or len(em) - 1 - j == expected
+
+
+def eme_pkcs1_v15_msg(em):
+    """M of an EM that satisfies eme_pkcs1_v15_ok"""
+    return em[eme_pkcs1_v15_sep(em) + 1:]
+
+
+def pkcs1_decode_bad_args(n, ls, expected):
+    """the argument refusals of the C function pkcs1_decode (DESIGN C07; src/pkcs1_decode.c proves them under C07/C17):
+    n = len(em) = len(output), ls = len(sentinel), expected as the size_t the C function receives"""
+    return n < 12 or ls > n or (expected > 0 and expected > n - 11)
+
+
+# ================================================================ section MGF1 / EMSA-PSS / RSAES-OAEP (sig_pss.py, enc_oaep.py)
+
+
+def ceil8(bits):
+    """ceil(bits / 8)"""
+    return (bits + 7) // 8
+
+
+def ceil_div(a, b):
+    """ceil(a / b) for a >= 0, b >= 1: the smallest integer c with c * b >= a"""
+    q = a // b
+    if q * b == a:
+        return q
+    return q + 1
+
+
+def MGF(g_id, seed, length):
+    """a caller-supplied mask generation function (ghost id g_id): some fixed function of (seed, length) that returns
+    `length` octets (the documented interface of `mask_func` / `mgfunc`); nothing else is known about it"""
+    pass
+
+
+def mgf1_T(alg, seed, blocks):
+    """RFC 8017 B.2.1 step 3: the string T after `blocks` iterations,
+         T(0) = empty,   T(j + 1) = T(j) || Hash(mgfSeed || C),  C = I2OSP(j, 4)
+    The recursion is kept as an uninterpreted symbol; its two defining equations are the SIG facts (DEFINITIONAL: they are the
+    recursive definition itself, instantiated at the applications that occur in a proof)."""
+    pass
+
+
+def mgf1(alg, seed, maskLen):
+    """MGF1 (RFC 8017 B.2.1) with the hash function `alg`, for 0 <= maskLen <= 2^32 hLen (step 1: longer masks are an error,
+    "mask too long"): the leading maskLen octets of T after ceil(maskLen / hLen) iterations (steps 3 and 4).
+    The SIG length fact is a consequence of the definition proved with the contract of pss.MGF1 (clause `len`)."""
+    return mgf1_T(alg, seed, ceil_div(maskLen, hlen(alg)))[:maskLen]
+
+
+def low_bits(z):
+    """2^(8 - z) for z = 8 emLen - emBits in 0..7: an octet has its leftmost z bits equal to zero iff it is < low_bits(z),
+    and `octet mod low_bits(z)` is the octet with its leftmost z bits set to zero"""
+    if z == 0:
+        return 256
+    if z == 1:
+        return 128
+    if z == 2:
+        return 64
+    if z == 3:
+        return 32
+    if z == 4:
+        return 16
+    if z == 5:
+        return 8
+    if z == 6:
+        return 4
+    return 2
+
+
+def clear_left(x, z):
+    """the octet string x (non-empty) with the leftmost z bits of its leftmost octet set to zero"""
+    return bytes([nth(x, 0) % low_bits(z)]) + x[1:]
+
+
+def emsa_pss_H(alg, mHash, salt):
+    """RFC 8017 9.1.1 steps 5-6 / 9.1.2 steps 12-13:  H = Hash(M'),  M' = (0x)00 00 00 00 00 00 00 00 || mHash || salt"""
+    return Hash(alg, rep(bytes(1), 8) + mHash + salt)
+
+
+def emsa_pss_em(alg, mHash, emBits, salt, dbMask):
+    """EMSA-PSS-ENCODE, RFC 8017 9.1.1 steps 5-12, for a hash value mHash, salt and dbMask = MGF(H, emLen - hLen - 1)
+    (the caller supplies the mask because the mask generation function is a parameter of the scheme):
+       DB = PS || 0x01 || salt, PS = emLen - sLen - hLen - 2 zero octets;  maskedDB = DB xor dbMask with the leftmost
+       8 emLen - emBits bits of its leftmost octet set to zero;  EM = maskedDB || H || 0xbc"""
+    hLen = hlen(alg)
+    emLen = ceil8(emBits)
+    sLen = len(salt)
+    H = emsa_pss_H(alg, mHash, salt)
+    DB = rep(bytes(1), emLen - sLen - hLen - 2) + b'\x01' + salt
+    maskedDB = clear_left(xor(DB, dbMask), 8 * emLen - emBits)
+    return maskedDB + H + b'\xbc'
+
+
+def emsa_pss_ok(alg, mHash, em, emBits, sLen, dbMask):
+    """EMSA-PSS-VERIFY outputs "consistent", RFC 8017 9.1.2 steps 3-14, for EM an octet string of length
+    emLen = ceil(emBits / 8) (any other length: False, cf. 8.1.2 step 2c) and dbMask = MGF(H, emLen - hLen - 1) where
+    H = the hLen octets of EM before the trailer (supplied by the caller, see emsa_pss_em)"""
+    hLen = hlen(alg)
+    emLen = ceil8(emBits)
+    if len(em) != emLen:
+        return False
+    if emLen < hLen + sLen + 2:                                     # step 3
+        return False
+    if nth(em, emLen - 1) != 188:                                   # step 4: rightmost octet 0xbc
+        return False
+    maskedDB = em[:emLen - hLen - 1]                                # step 5
+    H = em[emLen - hLen - 1:emLen - 1]
+    z = 8 * emLen - emBits
+    if nth(maskedDB, 0) >= low_bits(z):                             # step 6: leftmost z bits of maskedDB not all zero
+        return False
+    DB = clear_left(xor(maskedDB, dbMask), z)                       # steps 7-9
+    ps = emLen - hLen - sLen - 2
+    if DB[:ps] != rep(bytes(1), ps) or nth(DB, ps) != 1:            # step 10
+        return False
+    salt = DB[len(DB) - sLen:]                                      # step 11: the last sLen octets of DB
+    return H == emsa_pss_H(alg, mHash, salt)                        # steps 12-14
+
+
+def pss_H(em, emBits, hLen):
+    """the field H of an encoded message of emLen octets (9.1.2 step 5)"""
+    return em[ceil8(emBits) - hLen - 1:ceil8(emBits) - 1]
+
+
+def first_nonzero(s):
+    """index of the first non-zero octet of s, len(s) if there is none (uninterpreted; the SIG facts define it:
+    0 <= i <= len(s), s[:i] consists of zero octets, and s[i] != 0 when i < len(s))"""
+    pass
+
+
+def oaep_em(lHash, M, k, seed, dbMask, seedMask):
+    """EME-OAEP encoding, RFC 8017 7.1.1 step 2 (b-i), with dbMask = MGF(seed, k - hLen - 1) and
+    seedMask = MGF(maskedDB, hLen) supplied by the caller:  DB = lHash || PS || 0x01 || M,
+    EM = 0x00 || (seed xor seedMask) || (DB xor dbMask)"""
+    hLen = len(lHash)
+    DB = lHash + rep(bytes(1), k - len(M) - 2 * hLen - 2) + b'\x01' + M
+    return b'\x00' + xor(seed, seedMask) + xor(DB, dbMask)
+
+
+def oaep_maskedDB(lHash, M, k, dbMask):
+    """maskedDB of 7.1.1 step 2f (the seed of the second MGF call)"""
+    return xor(lHash + rep(bytes(1), k - len(M) - 2 * len(lHash) - 2) + b'\x01' + M, dbMask)
+
+
+def oaep_ok(Y, lHash, DB):
+    """RFC 8017 7.1.2 step 3g: Y == 0 and DB == lHash' || PS || 0x01 || M with lHash' == lHash and PS a (possibly empty)
+    string of zero octets, i.e. the first non-zero octet after lHash' exists and is 0x01"""
+    h = len(lHash)
+    i = first_nonzero(DB[h:])
+    return Y == 0 and len(DB) >= h and DB[:h] == lHash and h + i < len(DB) and nth(DB, h + i) == 1
+
+
+def oaep_message(lHash, DB):
+    """the message M of DB = lHash' || PS || 0x01 || M (meaningful when oaep_ok)"""
+    h = len(lHash)
+    return DB[h + first_nonzero(DB[h:]) + 1:]
+
+
+def oaep_decode_c(em, lHash, db):
+    """the value returned by the C function oaep_decode(em, em_len, lHash, hLen, db, db_len) of src/pkcs1_decode.c as stated in
+    DESIGN.md C07 and proved on the C side (contracts/c/pkcs1_decode.py): -1 for em_len < 2 hLen + 2 or db_len != em_len - 1 - hLen;
+    otherwise hLen + 1 + i iff em[0] == 0, db[0..hLen) == lHash, db[hLen..hLen+i) all zero and db[hLen+i] == 1, else -1"""
+    h = len(lHash)
+    if len(em) < 2 * h + 2 or len(db) != len(em) - 1 - h:
+        return -1
+    i = first_nonzero(db[h:])
+    if nth(em, 0) == 0 and db[:h] == lHash and h + i < len(db) and nth(db, h + i) == 1:
+        return h + 1 + i
+    return -1
